@@ -164,6 +164,12 @@ pub struct MutArc<T>(pub T, pub Ghost<int>);
 // probe files only (rule R13): a last use of a guard binding, giving the borrow checker the scope of
 // the real Ref / RefMut / MutexGuard temporary
 pub fn hold_<T>(_g: &T) {}
+// probe files only (rule R13): a wrapper with a destructor, so that the borrow it holds is live until the
+// end of its scope on EVERY exit path (as the real guard's is)
+pub struct GuardScope_<T>(pub T);
+impl<T> Drop for GuardScope_<T> {
+  fn drop(&mut self) opens_invariants none no_unwind {}
+}
 impl<T> MutRc<T> {
   pub fn rc_deref_mut(&mut self) -> (r: &mut T)
     ensures *r == old(self).0, *final(r) == final(self).0, final(self).1 == old(self).1,
